@@ -188,7 +188,7 @@ def run_case(spec, idx, ctx):
         return run_case(dict(spec, _lib_shape=list(lib_shape), _lib_pad=[int(p) for p in pt.obj_padding_px]), idx, ctx)
     pt.dset.forward(np.arange(int(np.prod(sc.gpts))), pt.obj_padding_px)  # applies the dataset's hard constraints, as every iteration does
     pos = pt.dset.scan_positions_px.detach().cpu().numpy().astype(np.float64)
-    ctx.close(np.abs(pos - sc.positions_px).max(), 2e-4, "scan_positions_mismatch", lambda: "library scan positions differ from index*step/sampling+padding", **common)
+    ctx.close(np.abs(pos - sc.positions_px).max(), 2e-4, "scan_positions_mismatch", lambda: "library scan positions differ from index*step/sampling+padding", track="clipped(known finding)" if clip == "on" else None, **common)
     ctx.close(abs(float(pt.dset.mean_diffraction_intensity) / I.sum((2, 3)).mean() - 1), 1e-5, "mean_intensity_mismatch", "mean diffraction intensity", **common)
 
     # ---- loss at the truth, every loss type, public path + explicit chain ----------------------------
@@ -234,7 +234,7 @@ def run_case(spec, idx, ctx):
         Iflat = I.reshape(-1, *sc.roi)
         if kind.startswith("constant"):
             Iflat = np.roll(Iflat, (-roll[0], -roll[1]), axis=(1, 2))
-        ctx.close(np.abs(pred - Iflat).max() / Iflat.max(), 2e-5 if not kind.startswith("constant") else 2e-4, "predicted_pattern_mismatch", lambda: "max |pred - simulated| / max I, scene=%s" % sc.describe(), **common)
+        ctx.close(np.abs(pred - Iflat).max() / Iflat.max(), 2e-5 if not kind.startswith("constant") else 2e-4, "predicted_pattern_mismatch", lambda: "max |pred - simulated| / max I, scene=%s" % sc.describe(), track="clipped(known finding)" if clip == "on" else None, **common)
         # ---- stationarity: autograd gradient at truth << gradient at the perturbations -----------------
         # (l2 losses only: an l1 loss is not differentiable at its minimum, its gradient there is the sign of rounding noise)
         for lt in ("l2_amplitude", "l2_intensity"):
